@@ -160,6 +160,7 @@ func (r Rules) GetIncludes() []*Include {
 //
 // Note: logs.regCleanLogs helps a lot to do a first cleaning
 func (r Rules) Merge() Rules {
+	size := len(r)
 	for i := 0; i < len(r); i++ {
 		for j := i + 1; j < len(r); j++ {
 			if r[i] == nil && r[j] == nil {
@@ -186,6 +187,10 @@ func (r Rules) Merge() Rules {
 				j--
 			}
 		}
+	}
+	if len(r) < size {
+		// A merged rule can absorb a rule it was compared with before: merge until nothing changes
+		return r.Merge()
 	}
 	return r
 }
